@@ -60,7 +60,7 @@ def plan(tier, seed):
     specs.append({"kind": "signprobe", "count": 40 if tier == "quick" else 600})
     cfgs = CONFIGS[:8] if tier == "quick" else CONFIGS
     for c in cfgs:
-        s = {"kind": "corpus", "config": c["name"], "seed": seed, "count": 500 if tier == "quick" else 3000}
+        s = {"kind": "corpus", "config": c["name"], "seed": seed, "seed_fixed": True, "count": 500 if tier == "quick" else 3000}
         for k in ("hashseed", "env", "cwd", "pyargs", "stdout_encoding", "preimport", "setlocale"):
             if k in c:
                 s[k] = c[k]
